@@ -79,6 +79,12 @@ CHECKS = {
         note="Trusted: z3, CPython (running the programs), rsx. Behaviour = stdout + exception type of drivers that reach every branch. Three genuine defect classes are known findings. Bound: corpus K03, one-letter identifiers, fresh extracted name.",
         design="§5 C03",
     ),
+    "C04": dict(
+        level="other",
+        text="Solver-decided, path-exhaustive within stated bounds (Pattern B): inline.create_inline(...).get_changes (InlineMethod/InlineVariable/InlineParameter, _DefinitionGenerator, _InlineFunctionCallsForModuleHandle, functionutils.ArgumentMapping) over corpus K04 (definition with 1-3 call sites in 1-2 modules, positional/keyword/default mixes, methods, variables, parameters) with symbolic identifier spellings: z3 enumerates every capture between the inlined body's parameters/locals and the names at the call sites; the query occurrence and the remove/only_current mode are solver-split. Each result is a refusal or must parse, keep every module importable and print the same output.",
+        note="Trusted: z3, CPython (running the programs), rsx. Ten hazard classes in which rope's textual inlining is wrong are known findings, identified by root-cause tags computed from the failing program; a failure is suppressed only if all its tags are known hazards. Bound: corpus K04, one-letter identifiers.",
+        design="§5 C04",
+    ),
 }
 
 NOT_YET = "check not built yet (see DESIGN.md §5 for the planned decision procedure)"
